@@ -76,3 +76,24 @@ Proof.
   - cbn. repeat constructor; cbn; intuition discriminate.
   - vm_compute. reflexivity.
 Qed.
+
+(* From the path text (ChainParse.v, ChainAddr.v): `$.*` and `$[*]` on an object return its members in the order of
+   sorted_keys — ascending (C07_keys_sorted) and independent of the insertion order (C07_keys_order_independent). *)
+From JP Require Import Text Tree Grammar Actions EvalInv1 KeyDefs ChainParse ChainAddr.
+From Coq Require Import List. Import ListNotations.
+Theorem C07_wildcard_order_from_text : forall cfg parse_float regex_ok ffun afun regex_match,
+  (forall f v w, small v -> ffun f v = Some w -> small w) ->
+  (forall f l w, Forall small l -> afun f l = Some w -> small w) ->
+  forall d m st, small (VObj m) -> ok st ->
+  exists t, parse_with cfg parse_float regex_ok jsonpath_grammar (chain_path [RPlain (SWild d)]) = ParseOk t /\
+            match flat_map (fun k => match lookup m k with Some x => [([PKey k], x)] | None => [] end) (sorted_keys m) with
+            | [] => exists e, fst (eval_run ffun afun regex_match t (VObj m) st) = OErr e
+            | l => fst (eval_run ffun afun regex_match t (VObj m) st) = OOk (map (loc_result cfg) l)
+            end.
+Proof.
+  intros cfg parse_float regex_ok ffun afun regex_match Hf Ha d m st Hsm Hok.
+  destruct (chain_retrieval cfg parse_float regex_ok ffun afun regex_match Hf Ha (RPlain (SWild d)) [] (VObj m) st eq_refl Hsm Hok) as (t & Hp & H).
+  exists t. split; [exact Hp|]. cbn [nav_all nav1r nav1 fst snd app] in H.
+  rewrite (flat_map_single (fun x : list pstep * value => x)), map_id in H. exact H.
+Qed.
+Print Assumptions C07_wildcard_order_from_text.
